@@ -546,7 +546,10 @@ func main() {
 		r := hx.Rand(o.Seed, 3)
 		var cases []*caseOut
 		for _, w := range []string{
-			"declare -A x; x[a+b]=v; echo \"${!x[@]}\"\n",
+			"declare -A x; x[a+b]=v; echo \"${!x[@]}\"\n",                   // KF-C03-1
+			"x=0; echo $((1/0 && x++)); echo $x\n",                          // KF-C03-2
+			"shopt -s extglob\ncase \"bar\" in !(foo)) echo match;; esac\n", // KF-C03-3
+			"f() { echo hello; }; declare -f f\n",                           // KF-C03-4
 		} {
 			cases = append(cases, &caseOut{Src: w, From: "witness"})
 		}
